@@ -2,6 +2,7 @@
 notifier is a simple TCP server/client that broadcasts event ids to all connected clients
 """
 import asyncio
+import collections
 import logging
 from aionostr.event import Event
 
@@ -66,12 +67,18 @@ class NotifyClient:
     def __init__(self, storage, port=6000, address="127.0.0.1"):
         self.storage = storage
         self.writer = None
+        # ids of events accepted before the connection is up (it is opened two seconds after start)
+        self.pending = collections.deque(maxlen=1000)
         self.port = port
         self.address = address
         self.log = logging.getLogger("nostr_relay.notify:client")
 
     async def notify(self, event: Event):
         self.log.debug("notifying about %s", event.id)
+        if self.writer is None:
+            # not connected yet: announce it as soon as the connection is there
+            self.pending.append(event.id_bytes)
+            return
         self.writer.write(event.id_bytes)
         await self.writer.drain()
 
@@ -79,6 +86,9 @@ class NotifyClient:
         await asyncio.sleep(2)
         self.log.info("Connecting to notify server on port %s", self.port)
         reader, self.writer = await asyncio.open_connection(self.address, self.port)
+        while self.pending:
+            self.writer.write(self.pending.popleft())
+        await self.writer.drain()
 
         while True:
             try:
